@@ -163,10 +163,14 @@ class AddCyclicMemoryLayout(RewritePattern):
                 # increase current stride
                 current_stride = current_stride * layout_bound
 
-            # fill up empty strides
-            for stride in strides:
-                if not len(stride):
-                    stride.append(Stride(current_stride, 1))
+            # fill up empty strides, and make sure every dimension is covered completely:
+            # what the schedule did not account for is put in an additional outermost tile
+            for stride, size in zip(strides, memref_type.get_shape()):
+                covered = prod(s.bound for s in stride if s.bound)
+                if not len(stride) or covered < size:
+                    remaining = -(-size // covered)
+                    stride.insert(0, Stride(current_stride, remaining))
+                    current_stride = current_stride * remaining
 
             layout = TiledStridedLayout([TiledStride(s) for s in strides]).canonicalize()
             tsl = TiledStridedLayoutAttr(layout)
